@@ -8,7 +8,7 @@ produce for the rendering of document `d` (tested by the correspondence run, tru
 Go maps are modelled as association lists: faithful for documents without keys that collide up to case
 (`noCaseCollision`, checked by the monitor on every generated document).
 -/
-import GoZero.C17.ProofsCase
+import GoZero.C17.ProofsStd
 namespace GoZero.C17
 
 /-! ### format independence -/
@@ -16,6 +16,10 @@ namespace GoZero.C17
 /-- **The three loaders differ only in the front end that produces the generic tree.** -/
 theorem load_is_function_of_tree (fs : Fields) (y : Y) (t : T) :
     loadYaml fs y = loadJson fs (yamlGlue y) ∧ loadToml fs t = loadJson fs (tomlGlue t) := ⟨rfl, rfl⟩
+
+/-- … also with a process environment (fields tagged `,env=`): `o` is `confOpts` plus the environment. -/
+theorem load_is_function_of_tree_env (o : Opts) (fs : Fields) (y : Y) (t : T) :
+    loadYamlO o fs y = loadJsonO o fs (yamlGlue y) ∧ loadTomlO o fs t = loadJsonO o fs (tomlGlue t) := ⟨rfl, rfl⟩
 
 /-- **Generic-tree normal form.**  For every document without null (representable in all three formats) the
 YAML glue (`toStringKeyMap`: `map[any]any` keys through `lang.Repr`, numbers to `json.Number`) and the TOML glue
@@ -32,6 +36,31 @@ theorem formats_agree (fs : Fields) (d : J) (t : T) (hd : plainDoc d = true) (ht
   rw [yaml_normal_form d hd, toml_normal_form d t hd ht]
   exact ⟨rfl, rfl⟩
 
+/-- format independence for every option set / environment of the conf loaders (tag options `default=`, `options=`,
+`range=`, `env=`, `,string`, `,inherit`, dotted keys included: they act after the generic tree). -/
+theorem formats_agree_env (o : Opts) (fs : Fields) (d : J) (t : T) (hd : plainDoc d = true) (ht : embT d = some t) :
+    loadYamlO o fs (embY d) = loadJsonO o fs d ∧ loadTomlO o fs t = loadJsonO o fs d := by
+  unfold loadYamlO loadTomlO loadJsonO
+  rw [yaml_normal_form d hd, toml_normal_form d t hd ht]
+  exact ⟨rfl, rfl⟩
+
+/-- **Format independence of the mapping-level entry points** `mapping.Unmarshal{Json,Yaml,Toml}{Bytes,Reader}`:
+for EVERY option set (`WithCanonicalKeyFunc`, `WithStringValues`, `WithFromArray`, `WithOpaqueKeys`), every type of the
+family and every document without null, the YAML and TOML entry points give exactly what the JSON entry point gives
+with the same options (the options are forwarded: Tie `tie_mYamlBytes`, `tie_mTomlBytes`, …). -/
+theorem mapping_formats_agree (o : Opts) (fs : Fields) (d : J) (t : T) (hd : plainDoc d = true) (ht : embT d = some t) :
+    unmarshalYaml o fs (embY d) = unmarshalWith o fs d ∧ unmarshalToml o fs t = unmarshalWith o fs d := by
+  unfold unmarshalYaml unmarshalToml
+  rw [yaml_normal_form d hd, toml_normal_form d t hd ht]
+  exact ⟨rfl, rfl⟩
+
+/-- the documents sorted for the deterministic walk (`loadJsonDet`, keys colliding up to case) agree as well. -/
+theorem formats_agree_det (o : Opts) (fs : Fields) (d : J) (t : T) (hd : plainDoc d = true) (ht : embT d = some t) :
+    loadYamlDet o fs (embY d) = loadJsonDet o fs d ∧ loadTomlDet o fs t = loadJsonDet o fs d := by
+  unfold loadYamlDet loadTomlDet loadJsonDet
+  rw [yaml_normal_form d hd, toml_normal_form d t hd ht]
+  exact ⟨rfl, rfl⟩
+
 /-- YAML's null is *not* format independent: the glue turns it into the empty string (why null is outside "representable
 in all three formats"). -/
 theorem yaml_null_becomes_empty_string : yamlGlue (embY .null) = .str [] := rfl
@@ -42,15 +71,15 @@ theorem yaml_null_becomes_empty_string : yamlGlue (embY .null) = .str [] := rfl
 of maps, maps in slices …) and every re-casing of the document's struct-field keys (`recasedTy`: map keys are data and
 stay), `conf.LoadFromJsonBytes` gives the same verdict and value.  Holds for the code with
 fixes/C17-map-keys-are-data.patch; for the pinned code see `pinned_info_not_case_insensitive`. -/
-theorem key_case_insensitive (fs : Fields) (j j' : J) (h : recasedTy (.struct fs) j j' = true) :
-    loadJson fs j = loadJson fs j' := by
+theorem key_case_insensitive_env (o : Opts) (fs : Fields) (j j' : J) (h : recasedTy (.struct fs) j j' = true) :
+    loadJsonO o fs j = loadJsonO o fs j' := by
   have hl := lower_recased (.struct fs) j j' h
   cases j with
   | obj m =>
     cases j' with
     | obj m' =>
       simp only [infoOf, lowerVal, J.obj.injEq] at hl
-      simp only [loadJson, loadTree, loadTreeWith, infoOf, hl]
+      simp only [loadJsonO, loadTreeO, loadTreeWithO, infoOf, hl]
     | null => simp [recasedTy] at h
     | bool _ => simp [recasedTy] at h
     | num _ => simp [recasedTy] at h
@@ -70,6 +99,9 @@ theorem key_case_insensitive (fs : Fields) (j j' : J) (h : recasedTy (.struct fs
   | arr x => have e : J.arr x = j' := by simpa [recasedTy] using h
              rw [← e]
 
+theorem key_case_insensitive (fs : Fields) (j j' : J) (h : recasedTy (.struct fs) j j' = true) :
+    loadJson fs j = loadJson fs j' := key_case_insensitive_env confOpts fs j j' h
+
 /-- … and therefore through all three front ends. -/
 theorem key_case_insensitive_all_formats (fs : Fields) (d d' : J) (t t' : T)
     (h : recasedTy (.struct fs) d d' = true)
@@ -79,9 +111,9 @@ theorem key_case_insensitive_all_formats (fs : Fields) (d d' : J) (t t' : T)
   have a := formats_agree fs d' t' hd' ht'
   exact ⟨by rw [a.1, k], by rw [a.2, k], k.symm⟩
 
-def exInner : Fields := .cons ⟨"ID".toList, "id".toList, false, false⟩ (.prim (.int 64)) .nil
+def exInner : Fields := .cons { name := "ID".toList, key := "id".toList, optional := false, embedded := false } (.prim (.int 64)) .nil
 /-- `struct { Items []map[string]struct{ ID int `json:"id"` } `json:"items"` }` -/
-def exTy : Fields := .cons ⟨"Items".toList, "items".toList, false, false⟩ (.slice (.map (.struct exInner))) .nil
+def exTy : Fields := .cons { name := "Items".toList, key := "items".toList, optional := false, embedded := false } (.slice (.map (.struct exInner))) .nil
 /-- `{"items":[{"id":{"ID":1}}]}` — the map key `id` spells a field name of the element struct. -/
 def exDoc : J := .obj (.cons "items".toList (.arr (.cons (.obj (.cons "id".toList
   (.obj (.cons "ID".toList (.num "1".toList) .nil)) .nil)) .nil)) .nil)
@@ -120,18 +152,63 @@ theorem pinned_loader_verdicts_differ :
   have c : infoConflict (.struct exTy) = false := by decide
   simp only [exDoc, exDoc', exLowered, lowerVal, J.obj.injEq] at h1 h2
   constructor
-  · simp only [loadTreeWith, c, exDoc, h1]
-    simp [exTy, exInner, unmarshalStruct, withValue, fillSlice, sliceElems, genMap, withoutValue, JM.get?,
-      FMeta.tagKey, Except.map, lower, lowerC]
-  · simp only [loadTreeWith, c, exDoc', h2]
-    simp [exTy, exInner, unmarshalStruct, withValue, fillSlice, sliceElems, genMap, withoutValue, JM.get?,
-      FMeta.tagKey, Except.map, lower, lowerC, fillPrim, convFromString, parseInt?, parseNat?, digitsVal, digit?,
-      intInRange]
+  · simp only [loadTreeWith, loadTreeWithO, c, exDoc, h1]
+    simp only [exTy, exInner]; c17_eval
+  · simp only [loadTreeWith, loadTreeWithO, c, exDoc', h2]
+    simp only [exTy, exInner]; c17_eval
+
+/-! ### keys that collide up to case: the load must still be a function of the document -/
+
+def portTy : Fields := .cons { name := "Port".toList, key := "port".toList, optional := false, embedded := false } (.prim (.int 64)) .nil
+/-- `{"port":1,"PORT":"x"}` in the two orders a Go map can be walked in. -/
+def portDocA : J := .obj (.cons "port".toList (.num "1".toList) (.cons "PORT".toList (.str "x".toList) .nil))
+def portDocB : J := .obj (.cons "PORT".toList (.str "x".toList) (.cons "port".toList (.num "1".toList) .nil))
+
+/-- **Witness of the defect in the pinned code** (`toLowerCaseKeyMap` ranged over the Go map, so the entry written
+last under the lower-cased key won): the same document, walked in its two possible orders, is accepted with Port = 1
+or rejected — `conf.LoadFromJsonBytes` was not a function of the document (replayed on the real code: MONITOR
+`nondeterministic-load class=case-collision`).  With fixes/C17-case-collision-deterministic.patch the keys are walked
+in ascending order (`sortDoc`), both orders give the same result. -/
+theorem pinned_collision_order_dependent :
+    loadJson portTy portDocA = .ok (.struct (.cons "Port".toList (.int 1) .nil)) ∧
+    loadJson portTy portDocB = .error .err ∧
+    sortDoc portDocA = sortDoc portDocB ∧
+    loadJsonDet confOpts portTy portDocA = loadJsonDet confOpts portTy portDocB := by
+  have hs : sortDoc portDocA = sortDoc portDocB := by decide
+  refine ⟨?_, ?_, hs, ?_⟩
+  · have c : infoConflict (.struct portTy) = false := by decide
+    have hl : lowerMap (infoOf (.struct portTy)) (.cons "port".toList (.num "1".toList) (.cons "PORT".toList (.str "x".toList) .nil))
+        = .cons "port".toList (.num "1".toList) (.cons "port".toList (.str "x".toList) .nil) := by decide
+    simp only [loadJson, loadTree, loadTreeO, loadTreeWithO, c, portDocA, hl]
+    simp only [portTy]; c17_eval
+  · have c : infoConflict (.struct portTy) = false := by decide
+    have hl : lowerMap (infoOf (.struct portTy)) (.cons "PORT".toList (.str "x".toList) (.cons "port".toList (.num "1".toList) .nil))
+        = .cons "port".toList (.str "x".toList) (.cons "port".toList (.num "1".toList) .nil) := by decide
+    simp only [loadJson, loadTree, loadTreeO, loadTreeWithO, c, portDocB, hl]
+    simp only [portTy]; c17_eval
+  · simp only [loadJsonDet, hs]
 
 /-! ### environment variables are expanded only when requested; the loader depends on the extension up to case -/
 
 theorem env_only_when_requested (expand : Str → Str) (content : Str) :
     loadContent expand false content = content ∧ loadContent expand true content = expand content := ⟨rfl, rfl⟩
+
+/-- the file-level API: `conf.Load` (hence `LoadConfig`, `MustLoad`: Tie `tie_cLoadConfig`, `tie_cMustLoad`) picks the
+loader by the lower-cased extension only and hands it the content, expanded iff `UseEnv()`; an unknown extension is an
+error whatever the content. -/
+def confLoad (expand : Str → Str) (useEnv : Bool) (ext : Str) (run : Fmt → Str → R Val) (content : Str) : R Val :=
+  match loaderOf ext with
+  | none => .error .err
+  | some f => run f (loadContent expand useEnv content)
+
+theorem conf_load_dispatch (expand : Str → Str) (ext : Str) (run : Fmt → Str → R Val) (content : Str) :
+    confLoad expand false ext run content = confLoad expand false (lower ext) run content ∧
+    confLoad expand true ext run content = confLoad (fun s => s) false ext run (expand content) ∧
+    (loaderOf ext = none → ∀ e, confLoad expand e ext run content = .error .err) := by
+  refine ⟨?_, ?_, ?_⟩
+  · unfold confLoad loaderOf; rw [lower_idem]
+  · unfold confLoad loadContent; simp
+  · intro h e; unfold confLoad; rw [h]
 
 theorem loader_ignores_extension_case (ext : Str) : loaderOf (lower ext) = loaderOf ext := by
   unfold loaderOf
@@ -142,23 +219,43 @@ example : loaderOf ".YmL".toList = some .yaml ∧ loaderOf ".JSON".toList = some
 
 /-! ### agreement with encoding/json
 
-Full statement (not proven; see `agrees_with_std_json_partial` and the witnesses):
+The full statement is proven by mutual induction through structs, slices and maps in ProofsStd.lean
+(`agrees_with_std_json`, general form `agrees_with_std_json_opts`); it is restated here.  Every hypothesis is shown
+necessary by a witness: `std_differs_missing_map_nil_vs_empty` (normalisation of nil maps), `std_differs_inexact_key`
+(`keysExact`), `std_differs_case_collision` (`noCaseCollision`), `std_differs_repeated_field_key` (`tyKeysDistinct`),
+`std_differs_dotted_key` (`tyKeysPlain`), `float32_double_rounding` / `std_differs_float32_field_pinned` (the pinned
+float32 conversion; gone with fixes/C17-float32-single-rounding.patch). -/
 
-  theorem agrees_with_std_json (fs : Fields) (j : J) (a b : Val)
-      (hp : plainTy (.struct fs) = true) (hn : noNull j = true) (hc : noCaseCollision j = true)
-      (hk : keysExact (.struct fs) j = true) (hnum : inScope j = true)
-      (hu : unmarshalJson fs j = .ok a) (hs : stdDecode fs j = .ok b) : a.normNilMap = b.normNilMap
+/-- **Agreement with encoding/json**: for every struct type with plain name tags only (`plainTy`: no options, no
+embedding; nested structs, slices, maps, pointers, every primitive kind), whose field keys are distinct and contain
+no '.', and every document without null in which no two keys of an object collide up to case and every key that
+names a field up to case names it exactly: whenever `mapping.UnmarshalJsonBytes` and `encoding/json.Unmarshal` both
+accept, the decoded values are equal up to nil-vs-empty maps. -/
+theorem agrees_with_encoding_json (fs : Fields) (j : J) (a b : Val)
+    (hp : plainTy (.struct fs) = true) (hty : tyKeysDistinct (.struct fs) = true)
+    (hkp : tyKeysPlain (.struct fs) = true) (hd : plainDoc j = true)
+    (hc : noCaseCollision j = true) (hk : keysExact (.struct fs) j = true)
+    (hu : unmarshalJson fs j = .ok a) (hs : stdDecode fs j = .ok b) :
+    a.normNil = b.normNil := agrees_with_std_json fs j a b hp hty hkp hd hc hk hu hs
 
-What is proven: the scalar layer (every primitive kind except float32 decodes identically in both decoders), and that
-each hypothesis of the full statement is necessary (witnesses below).  What is missing: the induction through structs,
-slices and maps (both models are executable and are compared on every generated (type, document) pair by the
-correspondence run and the monitor, which is a test, not a proof). -/
+/-- … and therefore for the YAML and TOML entry points of the mapping package against encoding/json on the JSON
+rendering of the same document. -/
+theorem yaml_toml_agree_with_encoding_json (fs : Fields) (d : J) (t : T) (a b : Val)
+    (hp : plainTy (.struct fs) = true) (hty : tyKeysDistinct (.struct fs) = true)
+    (hkp : tyKeysPlain (.struct fs) = true) (hd : plainDoc d = true) (ht : embT d = some t)
+    (hc : noCaseCollision d = true) (hk : keysExact (.struct fs) d = true)
+    (hs : stdDecode fs d = .ok b) :
+    (unmarshalYaml {} fs (embY d) = .ok a → a.normNil = b.normNil) ∧
+    (unmarshalToml {} fs t = .ok a → a.normNil = b.normNil) := by
+  have m := mapping_formats_agree {} fs d t hd ht
+  exact ⟨fun h => agrees_with_std_json fs d a b hp hty hkp hd hc hk (by unfold unmarshalJson; rw [← m.1]; exact h) hs,
+         fun h => agrees_with_std_json fs d a b hp hty hkp hd hc hk (by unfold unmarshalJson; rw [← m.2]; exact h) hs⟩
 
 /-- scalar layer: a JSON scalar accepted for a struct field of primitive kind `p` by both decoders decodes to the same
 value, for every kind but float32 (go-zero rounds to float64 first: `float32_double_rounding`). -/
-theorem agrees_with_std_json_partial (p : Prim) (v : J) (a b : Val) (hp : p ≠ .float 32)
+theorem agrees_with_std_json_partial (two : Bool) (p : Prim) (v : J) (a b : Val) (hp : p ≠ .float 32)
     (hbits : ∀ n, p = .float n → n = 32 ∨ n = 64)
-    (hu : fillPrim p v = .ok a) (hs : stdPrim p v = .ok b) : a = b := by
+    (hu : fillPrim two p v = .ok a) (hs : stdPrim p v = .ok b) : a = b := by
   cases v with
   | num lit =>
     cases p with
@@ -182,10 +279,10 @@ theorem agrees_with_std_json_partial (p : Prim) (v : J) (a b : Val) (hp : p ≠ 
   | arr l => simp [fillPrim] at hu
   | obj m => simp [fillPrim] at hu
 
-example : fillPrim (.int 8) (.num "127".toList) = .ok (.int 127) ∧ stdPrim (.int 8) (.num "127".toList) = .ok (.int 127)
-    ∧ fillPrim (.int 8) (.num "128".toList) = .error .err := by decide
+example : fillPrim false (.int 8) (.num "127".toList) = .ok (.int 127) ∧ stdPrim (.int 8) (.num "127".toList) = .ok (.int 127)
+    ∧ fillPrim false (.int 8) (.num "128".toList) = .error .err := by decide
 
-def mapTy : Fields := .cons ⟨"M".toList, "m".toList, false, false⟩ (.map (.prim (.int 64))) .nil
+def mapTy : Fields := .cons { name := "M".toList, key := "m".toList, optional := false, embedded := false } (.map (.prim (.int 64))) .nil
 
 /-- both accept `{}` for `struct{ M map[string]int `json:"m"` }`; go-zero yields an empty map, encoding/json a nil map
 (equal only up to nil-vs-empty). -/
@@ -193,7 +290,7 @@ theorem std_differs_missing_map_nil_vs_empty :
     unmarshalJson mapTy (.obj .nil) = .ok (.struct (.cons "M".toList (.map .nil) .nil)) ∧
     stdDecode mapTy (.obj .nil) = .ok (.struct (.cons "M".toList .nilMap .nil)) := by
   refine ⟨?_, by decide⟩
-  simp [unmarshalJson, unmarshalStruct, withoutValue, mapTy, JM.get?, Except.map]
+  simp only [mapTy]; c17_eval
 
 /-- `keysExact` is necessary: `{"M":{"a":1}}` — encoding/json folds the key onto field `m`, go-zero does not see it. -/
 theorem std_differs_inexact_key :
@@ -202,9 +299,9 @@ theorem std_differs_inexact_key :
     stdDecode mapTy (.obj (.cons "M".toList (.obj (.cons "a".toList (.num "1".toList) .nil)) .nil))
       = .ok (.struct (.cons "M".toList (.map (.cons "a".toList (.int 1) .nil)) .nil)) := by
   refine ⟨?_, by decide⟩
-  simp [unmarshalJson, unmarshalStruct, withoutValue, mapTy, JM.get?, FMeta.tagKey, Except.map]
+  simp only [mapTy]; c17_eval
 
-def nameTy : Fields := .cons ⟨"Name".toList, "name".toList, false, false⟩ (.prim .string) .nil
+def nameTy : Fields := .cons { name := "Name".toList, key := "name".toList, optional := false, embedded := false } (.prim .string) .nil
 
 /-- `noCaseCollision` is necessary: `{"name":"a","NAME":"b"}` — encoding/json lets the later key win. -/
 theorem std_differs_case_collision :
@@ -213,12 +310,13 @@ theorem std_differs_case_collision :
     stdDecode nameTy (.obj (.cons "name".toList (.str "a".toList) (.cons "NAME".toList (.str "b".toList) .nil)))
       = .ok (.struct (.cons "Name".toList (.str "b".toList) .nil)) := by
   refine ⟨?_, by decide⟩
-  simp [unmarshalJson, unmarshalStruct, withValue, fillPrim, nameTy, JM.get?, FMeta.tagKey, Except.map]
+  simp only [nameTy]; c17_eval
 
 /-- float32: go-zero converts the literal to float64 and then to float32 (two roundings), `strconv.ParseFloat(s, 32)`
 rounds once: `16777217.0000000005` gives 16777216 resp. 16777218. -/
 theorem float32_double_rounding :
-    fillPrim (.float 32) (.num "16777217.0000000005".toList) = .ok (.flt 16777216 1) ∧
-    stdPrim (.float 32) (.num "16777217.0000000005".toList) = .ok (.flt 16777218 1) := by decide
+    fillPrim true (.float 32) (.num "16777217.0000000005".toList) = .ok (.flt 16777216 1) ∧
+    stdPrim (.float 32) (.num "16777217.0000000005".toList) = .ok (.flt 16777218 1) ∧
+    fillPrim false (.float 32) (.num "16777217.0000000005".toList) = .ok (.flt 16777218 1) := by decide
 
 end GoZero.C17
